@@ -261,3 +261,100 @@ def arrays_identical(a, b):
     if a.dtype.kind in "fc":
         return bool(np.array_equal(a, b, equal_nan=True))
     return bool(np.array_equal(a, b))
+
+
+# ---------------------------------------------------------------------------------------------
+# independent model of what Parser.forward must return (index maps + pair list)
+# ---------------------------------------------------------------------------------------------
+def parser_reference(species, coords, cutoff=None):
+    """species [B,M] ints, coords [B,M,3] floats (numpy).  Plain-loop enumeration, no torch.
+    -> dict with Z, maskd, atom_molid and a dict  pairs[(idxi, idxj)] = (mask, mask_l, pair_molid, dist, unit)"""
+    species = np.asarray(species)
+    coords = np.asarray(coords, float)
+    B, M = species.shape
+    compact = {}
+    Z, maskd, molid = [], [], []
+    for b in range(B):
+        for i in range(M):
+            if species[b, i] > 0:
+                compact[(b, i)] = len(Z)
+                Z.append(int(species[b, i]))
+                maskd.append(b * M * M + i * (M + 1))
+                molid.append(b)
+    pairs = {}
+    for b in range(B):
+        for i in range(M):
+            if species[b, i] <= 0:
+                continue
+            for j in range(i + 1, M):
+                if species[b, j] <= 0:
+                    continue
+                v = coords[b, j] - coords[b, i]
+                d2 = float(v @ v)
+                if cutoff is not None and not (d2 < float(cutoff) ** 2):
+                    continue
+                d = d2 ** 0.5
+                pairs[(compact[(b, i)], compact[(b, j)])] = ((b * M + i) * M + j, (b * M + j) * M + i, b, d, v / d)
+    return {"Z": Z, "maskd": maskd, "atom_molid": molid, "pairs": pairs, "nmol": B, "molsize": M}
+
+
+def parser_compare(out, ref, length_factor=1.0 / 0.529167, near_cutoff=None):
+    """out: the tuple returned by Parser.forward (17 entries, or 18 with mask_l).  -> list of problem strings.
+    near_cutoff = (cutoff, slack): pairs whose distance is within `slack` of the cutoff are not judged."""
+    probs = []
+    if len(out) == 18:
+        (nmol, molsize, nSH, nHeavy, nHydro, nocc, Z, maskd, atom_molid, mask, mask_l, pair_molid, ni, nj, idxi, idxj, xij, rij) = out
+    else:
+        (nmol, molsize, nSH, nHeavy, nHydro, nocc, Z, maskd, atom_molid, mask, pair_molid, ni, nj, idxi, idxj, xij, rij) = out
+        mask_l = None
+    if int(nmol) != ref["nmol"] or int(molsize) != ref["molsize"]:
+        probs.append("nmol/molsize %s/%s != %s/%s" % (nmol, molsize, ref["nmol"], ref["molsize"]))
+    if Z.tolist() != ref["Z"]:
+        probs.append("Z (compacted species) differs")
+    if maskd.tolist() != ref["maskd"]:
+        probs.append("maskd differs")
+    if idxi is None:
+        return probs
+    if atom_molid.tolist() != ref["atom_molid"]:
+        probs.append("atom_molid differs")
+    got = {}
+    ii, jj = idxi.tolist(), idxj.tolist()
+    mk, pm = mask.tolist(), pair_molid.tolist()
+    ml = mask_l.tolist() if mask_l is not None else [None] * len(ii)
+    r, x = rij.detach().tolist(), xij.detach().tolist()
+    zi, zj = ni.tolist(), nj.tolist()
+    if len(set(zip(ii, jj))) != len(ii):
+        probs.append("duplicate pairs in the list")
+    for t in range(len(ii)):
+        got[(ii[t], jj[t])] = (mk[t], ml[t], pm[t], r[t], x[t], zi[t], zj[t])
+    skip = set()
+    if near_cutoff is not None:
+        c, slack = near_cutoff
+        # pairs (present or absent) within slack of the cutoff are a tie and are not judged
+        skip = {k for k, v in ref.get("all_pairs", ref["pairs"]).items() if abs(v[3] - c) <= slack}
+    want = {k for k in ref["pairs"] if k not in skip}
+    have = {k for k in got if k not in skip}
+    missing, extra = want - have, have - want
+    if missing:
+        probs.append("%d pairs missing from the list, e.g. %s" % (len(missing), sorted(missing)[:3]))
+    if extra:
+        probs.append("%d pairs in the list that should not be there, e.g. %s" % (len(extra), sorted(extra)[:3]))
+    bad = {"mask": 0, "mask_l": 0, "pair_molid": 0, "rij": 0, "xij": 0, "ni/nj": 0}
+    for k in want & have:
+        w, g = ref["pairs"][k], got[k]
+        if g[0] != w[0]:
+            bad["mask"] += 1
+        if g[1] is not None and g[1] != w[1]:
+            bad["mask_l"] += 1
+        if g[2] != w[2]:
+            bad["pair_molid"] += 1
+        if abs(g[3] - w[3] * length_factor) > 1e-9 * max(1.0, w[3] * length_factor):
+            bad["rij"] += 1
+        if max(abs(g[4][c] - w[4][c]) for c in range(3)) > 1e-9:
+            bad["xij"] += 1
+        if g[5] != ref["Z"][k[0]] or g[6] != ref["Z"][k[1]]:
+            bad["ni/nj"] += 1
+    for name, n in bad.items():
+        if n:
+            probs.append("%s wrong for %d pairs" % (name, n))
+    return probs
